@@ -24,6 +24,36 @@ EXPLANATION = (
 )
 
 
+def slots_never_removed(ck, C):
+    """the slot vector only ever grows: removing a slot would let its index be re-created at
+    generation 0 and hand out (id, version) pairs that were already used"""
+    f = ck.facts
+    SHRINK = ("pop", "remove", "swap_remove", "truncate", "clear", "drain", "retain", "retain_mut", "split_off", "dedup", "resize", "take")
+    n = 0
+    for b in f.bodies.values():
+        for cs in b.calls():
+            if b.is_cleanup(cs.bb) or not cs.f or not cs.args:
+                continue
+            a0 = cs.args[0]
+            pl = a0.get("m") or a0.get("c")
+            if pl is None:
+                continue
+            is_slots = False
+            for r, p in b.resolve(a0):
+                if ".sources" in p:
+                    # the field of SourceList (not LoopInner.sources, which is the RefCell<SourceList>)
+                    idx = len(p) - 1 - list(reversed(p)).index(".sources")
+                    rest = p[idx + 1:]
+                    if all(x in ("&", "*", ".deref") for x in rest) and "SourceEntry" in f.types[f.peel_refs(pl["t"])]["s"]:
+                        is_slots = True
+            if is_slots:
+                n += 1
+                if cs.name in SHRINK and ("Vec" in cs.f["path"] or "slice" in cs.f["path"]):
+                    ck.violation(C, "T7-who-may-call", b, "slot-vector-shrinks:%s" % cs.name, "a slot is physically removed from the source list (%s): its index is later re-created at generation 0, so tokens and poller keys that were already issued become valid again for an unrelated source" % cs.name, site=b.where(cs.bb))
+    ck.ok(C, "T7-who-may-call", "list::SourceList", "slot-vector-only-grows", "%d operations on the slot vector inspected, none shrinks it" % n, site="src/list.rs")
+    ck.floor(C, "operations on the slot vector", n, 3)
+
+
 def token_factory_rules(ck, C):
     f = ck.facts
     # ---- clause 7: sub-token allocation ------------------------------------------------------------------------
@@ -226,6 +256,8 @@ def run(ck):
                 ck.violation("4", "T2-all-exits", ve, "reuse=>new-generation", "a slot can be reused without a new generation (vacant_entry does not bump on reuse%s): tokens and in-flight events of the previous occupant would match the new one" % ((", and these release sites do not bump either: %s" % unbumped) if unbumped else ""), site=ve.where())
             for c in inc:
                 ck.verdict(T.path_has(ve, c.args[0], ".token"), "4", "T6-provenance", ve, "increment_version(slot.token)", "the bumped value is the slot's own token", "increment_version is not applied to the slot's token", site=ve.where(c.bb))
+
+    slots_never_removed(ck, "4")
 
     # ---- clause 5: built-in sources ignore events that are not theirs ----------------------------------------
     for q, own in (("<Generic as EventSource>::process_events", "Generic.token"), ("<Timer as EventSource>::process_events", "registration.token")):
